@@ -110,7 +110,9 @@ def children (g : Graph) (n : JStr) : List JStr :=
   (g.edges.filter (fun e => e.parent == n)).map (·.child)
 
 /-- the walker loop of `resolve`, depth first instead of breadth first (the set of explored paths is the same):
-`false` = "found a loop". `path` = the nodes after the root on the current path. Fuel bounds the path length. -/
+`false` = "found a loop". `path` = the nodes after the root on the current path (the root itself is NOT on it, exactly as
+in the Rust code, so a cycle through the root is noticed one step later). Fuel bounds the path length; `edges.length + 1`
+always suffices (`Thm.C05.walk_fuel_sufficient`): the nodes on `path` are pairwise different children of edges. -/
 def walkOk (g : Graph) : Nat → List JStr → JStr → Bool
   | 0, _, _ => false
   | fuel + 1, path, head =>
@@ -131,18 +133,28 @@ def resolve {M D : Type} (c : Content M D) (dir : List (JStr × Bytes)) : Option
       match c.readRoot rootBytes with
       | none => none
       | some m =>
-        if walkOk g (g.nodes.length + 2) [] rootName then some { graph := g, rootName := rootName, rootMapping := m }
+        if walkOk g (g.edges.length + 1) [] rootName then some { graph := g, rootName := rootName, rootMapping := m }
         else none
 
 /-- `VersionGraph::get` -/
 def get {M : Type} (r : Resolved M) (name : JStr) : Option (Split × JStr) :=
   AList.lookup name r.graph.versions
 
-/-- all paths (as edge lists) from `src` to `dst` with exactly `len` edges -/
+/-- `Graph::find_edge(a, b)`: petgraph walks the outgoing edges of `a` newest first, so among parallel edges (they only
+arise when two different version strings alias to the same node, i.e. outside the well-formed domain) the one added
+last is found -/
+def findEdge (g : Graph) (a b : JStr) : Option Edge :=
+  (g.edges.filter (fun e => e.parent == a && e.child == b)).getLast?
+
+/-- the edges `apply_diffs` can use: `astar` yields a node path, each step is then looked up with `find_edge` -/
+def liveEdges (g : Graph) : List Edge :=
+  g.edges.filter (fun e => decide (findEdge g e.parent e.child = some e))
+
+/-- all paths (as lists of live edges) from `src` to `dst` with exactly `len` edges -/
 def pathsOfLen (g : Graph) : Nat → JStr → JStr → List (List Edge)
   | 0, src, dst => if src == dst then [[]] else []
   | len + 1, src, dst =>
-    (g.edges.filter (fun e => e.parent == src)).flatMap fun e =>
+    ((liveEdges g).filter (fun e => e.parent == src)).flatMap fun e =>
       (pathsOfLen g len e.child dst).map (e :: ·)
 
 /-- the shortest paths root → target (`astar` with unit weights returns one of them) -/
@@ -154,7 +166,7 @@ def shortestPaths (g : Graph) (src dst : JStr) : List (List Edge) :=
       match pathsOfLen g len src dst with
       | [] => go fuel (len + 1)
       | ps => ps
-  go (g.nodes.length + 1) 0
+  go (g.edges.length + 1) 0
 
 /-- the `try_fold` of `apply_diffs` along one path -/
 def foldPath {M D : Type} (c : Content M D) : M → List Edge → Option M
@@ -183,5 +195,90 @@ def depth {M : Type} (r : Resolved M) (n : JStr) : Nat :=
   match shortestPaths r.graph r.rootName n with
   | p :: _ => p.length
   | [] => 0
+
+/-! ## Specification side: what a directory *says* (a function of the set of files, not of the listing order)
+Used by the theorems (`Thm/C05.lean`) and, as decidable domain predicates, by the driver's oracles. -/
+
+/-- the keys a version string registers: both halves of `a~b`, or the plain name -/
+def keysOf (vs : JStr) : List JStr :=
+  match splitOnce TILDE vs with
+  | some (c, s) => [c, s]
+  | none => [vs]
+
+/-- how key `k` refers to version string `vs` -/
+def keyKind (k vs : JStr) : Option Split :=
+  match splitOnce TILDE vs with
+  | some (c, s) => if k = c then some Split.first else if k = s then some Split.second else none
+  | none => if k = vs then some Split.none else none
+
+/-- no two different version strings share a key -/
+def KeysDisjoint (vss : List JStr) : Prop :=
+  ∀ v1, v1 ∈ vss → ∀ v2, v2 ∈ vss → v1 ≠ v2 → ∀ k, k ∈ keysOf v1 → k ∉ keysOf v2
+
+/-- the version strings a directory entry registers, in processing order -/
+def fileVersions (f : JStr × Bytes) : List JStr :=
+  match stripSuffix EXT_TINY f.1 with
+  | some vs => [vs]
+  | none =>
+    match stripSuffix EXT_DIFF f.1 with
+    | some raw =>
+      match splitOnce HASH raw with
+      | some (parent, version) => [version, parent]
+      | none => []
+    | none => []
+
+def dirVersions (dir : List (JStr × Bytes)) : List JStr := dir.flatMap fileVersions
+
+/-- the edge a directory entry stands for -/
+def fileEdge (f : JStr × Bytes) : Option Edge :=
+  match stripSuffix EXT_TINY f.1 with
+  | some _ => none
+  | none =>
+    match stripSuffix EXT_DIFF f.1 with
+    | some raw =>
+      match splitOnce HASH raw with
+      | some (parent, version) => some { parent := parent, child := version, content := f.2 }
+      | none => none
+    | none => none
+
+def dirEdges (dir : List (JStr × Bytes)) : List Edge := dir.filterMap fileEdge
+
+/-- the root a directory entry stands for -/
+def fileRoot (f : JStr × Bytes) : Option (JStr × Bytes) :=
+  match stripSuffix EXT_TINY f.1 with
+  | some vs => some (vs, f.2)
+  | none => none
+
+def dirRoots (dir : List (JStr × Bytes)) : List (JStr × Bytes) := dir.filterMap fileRoot
+
+/-- `p` is a chain of edges of `g` from `src` to `dst` -/
+inductive IsPath (g : Graph) : JStr → JStr → List Edge → Prop where
+  | nil (n : JStr) : IsPath g n n []
+  | cons {e : Edge} {dst : JStr} {p : List Edge} :
+      e ∈ g.edges → IsPath g e.child dst p → IsPath g e.parent dst (e :: p)
+
+/-- the graph `apply_diffs` sees through `find_edge`: one edge per ordered node pair -/
+def live (g : Graph) : Graph := { g with edges := liveEdges g }
+
+/-- a cycle that can be reached from `root` -/
+def ReachableCycle (g : Graph) (root : JStr) : Prop :=
+  ∃ v p q, IsPath g root v p ∧ IsPath g v v q ∧ q ≠ []
+
+/-- no two different edges join the same ordered pair of nodes -/
+def NoParallel (g : Graph) : Prop :=
+  ∀ e1, e1 ∈ g.edges → ∀ e2, e2 ∈ g.edges → e1.parent = e2.parent → e1.child = e2.child → e1 = e2
+
+/-- `KeysDisjoint`, decidable -/
+def keysDisjointB (vss : List JStr) : Bool :=
+  vss.all fun v1 => vss.all fun v2 => v1 == v2 || (keysOf v1).all fun k => !(keysOf v2).contains k
+
+/-- a `.tinydiff` whose stem has no `#` (`resolve` bails on it) -/
+def badDiffName (f : JStr × Bytes) : Bool :=
+  match stripSuffix EXT_TINY f.1 with
+  | some _ => false
+  | none =>
+    match stripSuffix EXT_DIFF f.1 with
+    | some raw => (splitOnce HASH raw).isNone
+    | none => false
 
 end VG
